@@ -145,6 +145,14 @@ func init() {
 // without compressor is executed; with the bit set, the lz4 and snappy codecs run as well.
 // comp > 0 forces that codec (compressed bases).
 func (wk *worker) frameEPs(cl call, in []byte, m mut, comp int, full bool) {
+	wk.frameEPsRot(cl, in, m, comp, full, -1)
+}
+
+// frameEPsRot: rot < 0 runs every frame-level entry point; rot >= 0 (mutations behind the header,
+// where all paths hand the same body bytes to the same body decoder) runs DecodeFrame and one of
+// the other paths, chosen by rot, so that every path sees every offset class without decoding the
+// same damaged body six times.
+func (wk *worker) frameEPsRot(cl call, in []byte, m mut, comp int, full bool, rot int) {
 	lo, hi := 0, 0
 	if comp > 0 {
 		lo, hi = comp, comp
@@ -156,7 +164,7 @@ func (wk *worker) frameEPs(cl call, in []byte, m mut, comp int, full bool) {
 		f := &ffns[ci]
 		cl.ep = epDecodeFrame
 		wk.exec(&cl, in, m, f.decodeFrame)
-		if m.Class == mcBig24 {
+		if m.Class == mcBig24 && m.Val >= 1<<24 {
 			// 2^24 makes every allocation it reaches cost milliseconds: two paths instead of six
 			if full && ci == lo {
 				cl.ep = epHdrRawBody
@@ -164,11 +172,15 @@ func (wk *worker) frameEPs(cl call, in []byte, m mut, comp int, full bool) {
 			}
 			continue
 		}
-		cl.ep = epRawConvert
-		wk.exec(&cl, in, m, f.rawConvert)
-		cl.ep = epHdrBody
-		wk.exec(&cl, in, m, f.hdrBody)
-		if full && ci == lo {
+		if rot < 0 || rot%3 == 0 {
+			cl.ep = epRawConvert
+			wk.exec(&cl, in, m, f.rawConvert)
+		}
+		if rot < 0 || rot%3 == 1 {
+			cl.ep = epHdrBody
+			wk.exec(&cl, in, m, f.hdrBody)
+		}
+		if full && ci == lo && (rot < 0 || rot%3 == 2) {
 			cl.ep = epHdrRawBody
 			wk.exec(&cl, in, m, f.hdrRawBody)
 			cl.ep = epHdrDiscard
@@ -221,24 +233,30 @@ func makeBodyFns(hdr frame.Header, comp int, withMsg bool) bodyFns {
 }
 
 func (wk *worker) bodyEPs(cl call, body []byte, m mut, comp int, bf *bodyFns) {
+	wk.bodyEPsRot(cl, body, m, comp, bf, -1)
+}
+
+func (wk *worker) bodyEPsRot(cl call, body []byte, m mut, comp int, bf *bodyFns, rot int) {
 	cl.comp = comp
-	if m.Class == mcBig24 {
+	if m.Class == mcBig24 && m.Val >= 1<<24 {
+		rot = 2
+	}
+	if rot < 0 || rot%3 == 0 {
+		cl.ep = epConvert
+		wk.exec(&cl, body, m, bf.convert)
+	}
+	if rot < 0 || rot%3 == 1 {
+		cl.ep = epDecodeBody
+		wk.exec(&cl, body, m, bf.decodeBody)
+	}
+	if rot < 0 || rot%3 == 2 {
 		if bf.msg != nil {
 			cl.ep = bf.msgEP
 			wk.exec(&cl, body, m, bf.msg)
-		} else {
+		} else if rot >= 0 {
 			cl.ep = epConvert
 			wk.exec(&cl, body, m, bf.convert)
 		}
-		return
-	}
-	cl.ep = epConvert
-	wk.exec(&cl, body, m, bf.convert)
-	cl.ep = epDecodeBody
-	wk.exec(&cl, body, m, bf.decodeBody)
-	if bf.msg != nil {
-		cl.ep = bf.msgEP
-		wk.exec(&cl, body, m, bf.msg)
 	}
 }
 
@@ -265,6 +283,15 @@ func smallFrame(seed int64, tag uint64, p pair, fixedFlags int, limit int, soft 
 		}
 	}
 	return bestF, best
+}
+
+func hasASCII(b []byte) bool {
+	for _, c := range b {
+		if c >= 0x21 && c <= 0x7E {
+			return true
+		}
+	}
+	return false
 }
 
 func randChooser(r *mon.Rand) *gen.Chooser { return gen.NewRandChooser(r) }
@@ -325,23 +352,33 @@ func (wk *worker) frameSweep(pi, d int) {
 		sp = sweepSpec{FieldSample: 6000, Trunc: len(b) <= 4096, Flips: 64}
 	}
 	sweep(b, sp, r, func(in []byte, m mut) {
-		wk.frameEPs(cl, in, m, 0, true)
 		if m.O >= hl && len(in) >= hl {
-			wk.bodyEPs(cl, in[hl:], m, 0, &bf)
+			wk.frameEPsRot(cl, in, m, 0, true, m.O+m.W)
+			wk.bodyEPsRot(cl, in[hl:], m, 0, &bf, m.O+m.W+1)
+		} else {
+			wk.frameEPs(cl, in, m, 0, true)
 		}
 	})
-	big24Sample(b, 0, 4, r, func(in []byte, m mut) {
+	big24Sample(b, 0, 1, r, func(in []byte, m mut) {
 		wk.frameEPs(cl, in, m, 0, true)
 		if m.O >= hl {
 			wk.bodyEPs(cl, in[hl:], m, 0, &bf)
 		}
 	})
 	for i := 0; i < 2; i++ {
-		oi := (pi + 1 + r.Intn(len(pairs)-1)) % len(pairs)
-		_, ob := smallFrame(wk.seed, utag(tagSweep, oi, 0), pairs[oi], 0, 300, true, randChooser)
+		// partner without protocol keywords (ASCII read as a length is a gigabyte)
+		var ob []byte
+		for try := 0; try < 8 && ob == nil; try++ {
+			oi := (pi + 1 + r.Intn(len(pairs)-1)) % len(pairs)
+			_, cand := smallFrame(wk.seed, utag(tagSweep, oi, 0), pairs[oi], 0, 300, true, randChooser)
+			if cand != nil && !hasASCII(cand[pairs[oi].v.HeaderLen():]) {
+				ob = cand
+			}
+		}
 		if ob == nil {
 			continue
 		}
+		oi := i
 		for j := 0; j < 8; j++ {
 			s := splice(b, ob, r)
 			m := mut{Class: mcSplice, O: oi, W: j}
@@ -476,6 +513,12 @@ func (wk *worker) frameComp(pi, d, comp int) {
 		dcEP, dcFn = epSnappyWithLen, fnSnappyWithLen
 	}
 	all := func(in []byte, m mut) {
+		if len(in) > 1 && in[1]&ref.FlagCompressed == 0 {
+			// the mutation cleared the COMPRESSED flag: compressed bytes parsed as a plain body are the
+			// random-body class (randomUnit), and cost a huge allocation every other time
+			wk.counters["compressed_frame_mutants_that_cleared_the_flag_not_run"]++
+			return
+		}
 		wk.frameEPs(cl, in, m, comp, false)
 		if m.O >= hl && len(in) >= hl {
 			wk.bodyEPs(cl, in[hl:], m, comp, &bf)
@@ -486,22 +529,30 @@ func (wk *worker) frameComp(pi, d, comp int) {
 	}
 	r := mon.NewRand(wk.seed, utag(tagComp, pi, d)<<8|0xFF)
 	all(b, mut{Class: mcValid, O: hl})
-	// exhaustive over header + length prefix + the first bytes of the block; the rest of the block is
-	// sampled: a damaged block that still decompresses hands arbitrary bytes to the body decoder (the
-	// random-body class), and the decompressors get their own exhaustive sweeps in compressUnit
+	// exhaustive over the header and (LZ4) the 4-byte length prefix and the first bytes of the block;
+	// the rest of the block is sampled: a damaged block that still decompresses hands arbitrary bytes
+	// to the body decoder (the random-body class), and the decompressors get their own exhaustive
+	// sweeps in compressUnit. The Snappy length varint is not swept byte-wise here (a continuation bit
+	// turns the following bytes into a declared length of up to 4 GiB, which snappy.Decode allocates):
+	// it takes the listed lengths below, and 2^28.. in the resource table.
 	cut := hl + 12
+	if comp == 2 {
+		cut = hl
+	}
 	if cut > len(b) {
 		cut = len(b)
 	}
 	sweep(b[:cut:cut], sweepSpec{Fields: true}, r, func(in []byte, m mut) {
 		all(append(append(make([]byte, 0, len(b)), in...), b[cut:]...), m)
 	})
-	sweep(b, sweepSpec{From: cut, FieldSample: 200, Trunc: len(b) <= 4096, Flips: 64}, r, all)
-	sweep(b, sweepSpec{Trunc: len(b) <= 4096}, r, func(in []byte, m mut) {
-		if m.O < cut {
-			all(in, m)
-		}
-	})
+	from := cut
+	if comp == 2 && from+2 < len(b) {
+		from += 2
+	}
+	sweep(b, sweepSpec{From: from, FieldSample: 100, Flips: 32}, r, all)
+	if len(b) <= 4096 {
+		sweep(b, sweepSpec{Trunc: true}, r, all)
+	}
 	if comp == 1 {
 		block := cb[4:]
 		old := uint32(len(body))
@@ -534,8 +585,8 @@ func (wk *worker) frameComp(pi, d, comp int) {
 	}
 }
 
-// msgCross: the message bytes of one valid frame through every message codec and every version
-// (the matching pair is the valid case), plus 32 bit flips through the own codec in every version.
+// msgCross: the message bytes of one valid frame through its own codec in every version and through
+// every other codec in its own version (the matching pair is the valid case), plus 32 bit flips through the own codec in every version.
 func (wk *worker) msgCross(pi, d int) {
 	p := pairs[pi]
 	f, b := smallFrame(wk.seed, utag(tagCross, pi, d), p, 0, 2048, true, randChooser)
@@ -548,6 +599,10 @@ func (wk *worker) msgCross(pi, d int) {
 	for i := range msgCodecs {
 		mc := &msgCodecs[i]
 		for _, v := range ref.Versions {
+			// the own codec with every version, every other codec with the own version
+			if mc.op != own && v != p.v {
+				continue
+			}
 			pv := primitive.ProtocolVersion(v)
 			cl.ep, cl.ver = mc.ep, byte(v)
 			m := mut{Class: mcCross, O: int(mc.op), W: int(v)}
